@@ -6,6 +6,7 @@
       conf[i]   the mean character confidence on the ordered scale of EngineMerge (0 none, 2 exactly 0.0, 4 + 2*rank of
                 the float among the line's distinct positive values: equal numbers = exactly equal floats)
       obs[i], num[i], den[i]   the float mean in millionths and the exact rational num/den the logits were built to realise
+                (den = 0: no expectation - the line is not alignable and get_confidences falls back to a constant)
    and after merging
       tx, lg, ch   the engines whose ORIGINAL transcription / logits (content) / character table equal the merged line's
       rec          1 = transcription_confidence still the first layout's own value, else the scale value of the engine whose
@@ -13,8 +14,11 @@
    plus frame_ok (ids, geometry, line order of every layout unchanged) and idem (second merge changed nothing).
 
    Acceptance is property-level: operator Accepts of the design module (first arg-max when positive, reading decision of
-   Appendix D otherwise).  verdict = 0 or the first failing clause (10 + k = selection clause of line k).            *)
+   Appendix D otherwise), on the confidences the script computes, which must be the means of the library's per-character
+   confidences (refdev).  verdict = 0 or the first failing clause (10 + k = selection clause of line k).  With ExactMeans = TRUE the
+   means are also compared with the exact rationals (clause 5): a mismatch there alone is MODEL-DRIFT, not a violation.     *)
 EXTENDS EngineMerge, TraceKit
+CONSTANT ExactMeans      \* TRUE: additionally compare the means with the exact rationals the logits were built for (drift level)
 VARIABLES tid, verdict
 
 Tr == Traces[tid]
@@ -23,14 +27,19 @@ SetOf(s) == {s[i] : i \in DOMAIN s}
 \* the confidence the selection is based on is the mean of the per-character confidences defined by the logits
 LevelsOK == \A k \in Lines : \A i \in Engines :
                LET ln == Tr.lines[k] IN
-               ln.conf[i] = 0 \/ Near(ln.obs[i] * ln.den[i], ln.num[i] * 1000000, ln.den[i] * 10)
+               ln.conf[i] = 0 \/ ln.den[i] = 0 \/ Near(ln.obs[i] * ln.den[i], ln.num[i] * 1000000, ln.den[i] * 10)
 BadLines == {k \in Lines : ~Accepts(k, SetOf(Tr.lines[k].tx), SetOf(Tr.lines[k].lg), SetOf(Tr.lines[k].ch), Tr.lines[k].rec)}
+
+\* the mean the script bases its choice on is the mean of the library's per-character confidences of that transcription
+\* (refdev = |script - library| in units of 1e-12; 0 where the library cannot align the line and the script falls back to a constant)
+RefOK == \A k \in Lines : \A i \in Engines : Tr.lines[k].refdev[i] <= 1000
 
 Judge == IF Tr.outcome # "ok" THEN 1
          ELSE IF ~Tr.frame_ok THEN 2
-         ELSE IF ~LevelsOK THEN 3
+         ELSE IF ~RefOK THEN 3
          ELSE IF BadLines # {} THEN 10 + (CHOOSE k \in BadLines : \A o \in BadLines : k <= o)
          ELSE IF ~Tr.idem THEN 4
+         ELSE IF ExactMeans /\ ~LevelsOK THEN 5
          ELSE 0
 
 TInit == /\ tid \in 1..NTraces
